@@ -48,7 +48,7 @@ def run(ctx):
         def words(t):
             out = []
             for x in t[1]:
-                if not (x[0] == 'call' and x[1] == ('g', 'Bits') and T.is_c(x[2][0]) and T.kwargs_of(x).get('bitorder') == T.C(1)):
+                if not (x[0] == 'call' and x[1] == ('g', 'Bits') and T.is_c(x[2][0]) and T.call_arg(x, 'bitorder', 2) == T.C(1)):
                     raise AnalysisError('constant word is not Bits(bytes, bitorder=1)')
                 out.append(int.from_bytes(x[2][0][1], 'little'))
             return out
